@@ -276,7 +276,12 @@ func genHistory(t *rapid.T, sep string) []h.Str {
 	res := []string{`"[;:]"`, `", *"`, `"a|ab"`, `"[ ,]+"`, `"x+"`, `"\\|"`, `"(,)"`, `"[^,]"`}
 	for i := 0; i < n; i++ {
 		var st string
-		switch rapid.IntRange(0, 11).Draw(t, "hk") {
+		switch rapid.IntRange(0, 13).Draw(t, "hk") {
+		case 12:
+			// the target array holds elements no earlier split put there
+			st = `parts["total"] = 1; parts[0] = 2; parts[40] = 3; parts[1, 2] = 4`
+		case 13:
+			st = `parts[` + rapid.SampledFrom([]string{`"x"`, `-1`, `2`, `7`, `"01"`, `""`}).Draw(t, "stray") + `] = "stray"`
 		case 0:
 			st = "FS = " + rapid.SampledFrom(res).Draw(t, "fsre")
 		case 1:
